@@ -296,6 +296,13 @@ def run(ck, F):
     ck.extra['accessor_evaluations'] = nmeth
     ck.extra['classes'] = len(conc)
     ck.extra['exceptions_reachable_from_accessors'] = {k: len(v) for k, v in thrown.items()}
+    # a dynamic_cast to a *reference* type refuses by throwing std::bad_cast, which is not a logic_error
+    for g_ in F.fn.values():
+        if not g_['loc'].startswith(('src/', 'include/')) or g_.get('body') is None:
+            continue
+        for m_ in walk(g_['body']):
+            if m_.get('k') == 'cast' and m_.get('explicit') == 'dynamic' and not (m_.get('t') or '').rstrip().endswith('*'):
+                thrown.setdefault('std::bad_cast', set()).add(contracts.short(contracts.fn_qname(g_['id'])) + ' (dynamic_cast to a reference)')
     R2b = ck.rule('C14.accessor-exceptions', 'every exception an accessor can raise derives from std::logic_error', floor=2)
     for t, who in sorted(thrown.items()):
         ck.check(R2b, t, t in LOGIC_DERIVED, f'{t} (not a logic_error) can be raised by {sorted(who)[:4]}', detail={'raised_by': len(who)})
